@@ -1,4 +1,5 @@
 import H2T.Lemmas.WrapInv
+import H2T.Lemmas.TagTextPre
 import H2T.Lemmas.PreVerbatim
 import H2T.Lemmas.PreElement
 
@@ -117,5 +118,28 @@ theorem pre_document_reproduced (cfg : Cfg) (d : Deco) (w : Nat) (hw : 0 < w) (h
       ∀ i (_ : i < ls.length) (_ : i < Ls.length), ∃ k,
         expandGo [d.annOf (Ann.pre false)] [] ls[i] = Ls[i] ++ List.replicate k (spc [d.annOf (Ann.pre false)]) :=
   renderDom_preDoc cfg d w hw hdec hww hpad ci depth nl hnl hws ls hfit
+
+/-! ## no non-space character lost, duplicated or reordered — fits or not -/
+
+/-- **the characters of a preformatted block survive any cutting**: for every render tree without tables — `<pre>` blocks
+    at any depth, with inline elements, nested in list items and quotes — every width, configuration (footnotes off, no
+    Unicode strikeout) and decorator: the visible characters of the rendered lines (on an alphabet the block prefixes
+    avoid) are exactly the tree's visible characters, each once, in document order.  Whether a source line fits or is cut
+    into pieces, no non-space character is lost, duplicated or reordered. -/
+theorem pre_characters_survive_cutting (P : Ch → Bool) (cfg : Cfg) (d : Deco) (w : Nat) (tree : RNode) (ls : List RLine)
+    (hfn : cfg.footnotes = false) (hu : cfg.unicodeStrike = false) (hd : DecoAvoids P d) (ht : noTable tree = true)
+    (h : renderTree cfg d w tree = .ok ls) : (ls.flatMap rink).filter P = (nodeRaw d tree).filter P :=
+  renderTree_chars_pre_raw P cfg d w tree ls hfn hu hd ht h
+
+/-- non-vacuity: a `<pre>` block with a word of eight characters, a blank and an emphasised word at width 5 (four hard cuts),
+    then a quoted paragraph, plain decorator -/
+example :
+    let tree : RNode := .box {} .container [
+      .box {pre := true, ws := some .pre} .block [.text {} (strCh "abcdefgh ij"), .box {} .em [.text {} (strCh "klmnopq")]],
+      .box {} .quote [.box {} .block [.text {} (strCh "rs")]]]
+    noTable tree = true ∧
+    ((renderTree { footnotes := false } Deco.plain 5 tree).toOption.map fun ls => ((ls.flatMap rink).filter richAlpha).map (·.cp)) =
+      some (((nodeRaw Deco.plain tree).filter richAlpha).map (·.cp)) ∧
+    ((renderTree { footnotes := false } Deco.plain 5 tree).toOption.map (·.length)) = some 6 := by decide +kernel
 
 end H2T.C12
